@@ -54,6 +54,19 @@ for d in sorted(glob.glob("seeded/*/meta.json")):
     out.append("| %s | %s | %s | %s | %s |" % (name, desc.replace("|", "\\|"), "yes" if cr.get("caught") else "**no**",
                                               ", ".join("`%s`" % k for k in cr.get("keys", [])[:3]).replace("|", "\\|"), note))
 out.append("")
+out.append("### 11.6 What the quick tier explored on the last run (generated from evidence/*.json)\n")
+out.append("| Property | level | evaluations | distinct non-trivial | states / transitions | known findings hit | exhaustive in bound | wall s (this machine, shared) |")
+out.append("|---|---|---|---|---|---|---|---|")
+for f in sorted(glob.glob("evidence/C*.json")):
+    try:
+        e = json.load(open(f))
+    except Exception:
+        continue
+    c = e["coverage"]
+    out.append("| %s | %s | %s | %s | %s | %d | %s | %s |" % (e["property_id"], e["level"], c.get("evaluations"), c.get("distinct_nontrivial"),
+               ("%s / %s" % (c.get("states"), c.get("transitions"))) if "states" in c else "-", len(c.get("known_findings_hit", [])),
+               c.get("exhaustive"), e.get("wall_s")))
+out.append("")
 text = "\n".join(out)
 s = open("DESIGN.md").read()
 a, b = "<!-- AUTOGEN-BEGIN -->", "<!-- AUTOGEN-END -->"
